@@ -151,6 +151,40 @@ def run(ctx):
         res = coq_eval("Run.RunC08", "runC08", [zcase(cases[i]) for i in idx], ctx.work, shard=sh_, tag="c%d" % sh_)
         for i, r in zip(idx, res):
             model[i] = r
+    # CHAINS of IMM look-ups in ONE process (quarterly, monthly, every 4 / 5 / 7 / 8 / 11 months, both directions, and random
+    # jumps): each answer must be the third Wednesday of ITS month whatever was asked before (harness `immseq`; expected
+    # values = the model's get_imm of each month)
+    rng = ctx.rng
+    chains = []
+    for _ in range(400 if ctx.tier == "thorough" else 60):
+        y, m = rng.randint(1975, 2190), rng.randint(1, 12)
+        step = rng.choice([1, -1, 3, -3, 4, -4, 4, -4, 8, -8, 8, 5, 7, 11, 12, 6])
+        seq = []
+        for _k in range(14):
+            seq.append((y, m))
+            if rng.random() < 0.1:
+                y, m = rng.randint(1975, 2190), rng.randint(1, 12)
+                continue
+            t = (y * 12 + (m - 1)) + step
+            y, m = t // 12, t % 12 + 1
+            if not (1971 <= y <= 2199):
+                break
+        chains.append(seq)
+    months = sorted(set(p for ch in chains for p in ch))
+    exp = dict(zip(months, coq_eval("Run.RunC08", "runC08", [zcase(("imm", y, m)) for y, m in months], ctx.work, shard=400, tag="immx")))
+    got = run_harness("dates", ["immseq %d %s" % (len(ch), " ".join("%d %d" % p for p in ch)) for ch in chains])
+    for ch, g in zip(chains, got):
+        ctx.evaluations += len(ch)
+        ctx.count("chains of IMM look-ups in one process")
+        ctx.nontriv(("immseq", tuple(ch)))
+        want = [0] + [exp[p][1] for p in ch] if all(exp[p][:1] == [0] for p in ch) else None
+        if want is not None and g != want:
+            k = next((i for i, (x, y_) in enumerate(zip(g[1:], want[1:])) if x != y_), 0)
+            ctx.violation("get_imm asked for %s in one process: look-up %d (%04d-%02d) answered day %s, the third Wednesday is day %s "
+                          "(day numbers since 1970-01-01)" % (ch[:k + 1], k, ch[k][0], ch[k][1], g[1 + k] if len(g) > 1 + k else g, want[1 + k]),
+                          {"case": ["immseq", len(ch)] + [v for p in ch for v in p], "chain": [list(p) for p in ch],
+                           "implementation": g, "model": want,
+                           "harness_cmd": "echo 'immseq %d %s' | harness/target/release/rlharness dates" % (len(ch), " ".join("%d %d" % p for p in ch))})
     for c, a, b in zip(cases, impl, model):
         op = c[0]
         ctx.count(op)
@@ -208,6 +242,16 @@ def run(ctx):
 
 
 def replay(ctx, rp):
+    if rp.get("chain"):
+        build_harness()
+        build_coq(coq_targets_for("C08"))
+        ch = [tuple(p) for p in rp["chain"]]
+        g = run_harness("dates", ["immseq %d %s" % (len(ch), " ".join("%d %d" % p for p in ch))])[0]
+        exp = coq_eval("Run.RunC08", "runC08", [zcase(("imm", y, m)) for y, m in ch], ctx.work)
+        want = [0] + [e[1] for e in exp]
+        print("replay IMM chain %s: implementation %s, model %s" % (ch, g, want))
+        ctx.cleanup()
+        return 0 if g == want else 1
     ok, _ = build_harness()
     c = rp["case"]
     a = run_harness("dates", [line(c)])
